@@ -148,9 +148,44 @@ pub struct C17Ctx<'a> {
     pub h2_sides: &'a [Side],
     /// all application tasks finished and the connection was not cut: stream ends are final
     pub settled: bool,
+    /// an injected read failure: (the side whose reads fail, the error text the transport reports)
+    pub read_fault: Option<(Side, &'static str)>,
 }
 
+/// I/O error texts the simulated transport can hand to an endpoint; anything else surfaced as an I/O error was
+/// made up by the library.
+const TRANSPORT_IO_TEXTS: &[&str] = &["sim: connection reset", "sim: peer closed without close_notify", "sim: peer closed", "sim: write failed"];
+
 pub fn check_c17(cx: &C17Ctx, out: &mut Outcome) {
+    // ---- an I/O failure surfaces on the handles with the transport's own error
+    if let Some((x, text)) = cx.read_fault {
+        let mut seen_exact = false;
+        for ev in cx.events.iter().filter(|ev| ev.side == x) {
+            let err = match &ev.api {
+                Api::RecvErr { err, .. } | Api::SendErr { err, .. } | Api::CapacityErr { err } => Some(err),
+                Api::Ready { result: Err(err) } => Some(err),
+                _ => None,
+            };
+            if let Some(err) = err {
+                if err.is_io {
+                    if err.text == text {
+                        seen_exact = true;
+                    } else if !TRANSPORT_IO_TEXTS.contains(&err.text.as_str()) {
+                        out.fail(
+                            "C17",
+                            "io-error/intact",
+                            format!("C17/io-failure-not-surfaced-intact/{}", strip_digits(&err.text).replace(' ', "-")),
+                            format!("{}'s transport failed with \"{}\" while streams were open, but a handle of stream key {} reports the I/O error \"{}\", which the transport never produced", x.name(), text, ev.key, err.text),
+                        );
+                        break;
+                    }
+                }
+            }
+        }
+        if seen_exact {
+            out.label("io-error-surfaced-intact");
+        }
+    }
     let apps = app_streams(cx.events);
     let ws = wire_streams(cx.tap);
     let goaways: [Vec<u32>; 2] = {
@@ -300,6 +335,7 @@ pub struct C19Ctx<'a> {
     pub client_handles_gone: bool,
     pub c2s_shutdown: bool,
     pub reset_max: [usize; 2],
+    pub orphans: &'a [(Side, Vec<(u32, usize)>)],
 }
 
 pub fn check_c19(cx: &C19Ctx, out: &mut Outcome) {
@@ -346,7 +382,36 @@ pub fn check_c19(cx: &C19Ctx, out: &mut Outcome) {
             continue;
         }
         if st.store_slab_len != st.store_ids_len {
-            out.fail("C19", "idle/orphan-records", "C19/stream-records-without-id", format!("{}: {} stream records but {} ids at quiescence with every handle dropped", side.name(), st.store_slab_len, st.store_ids_len));
+            // which history: the ids of the unreachable records are read through the probe and classified from the trace
+            let ids: Vec<u32> = cx.orphans.iter().filter(|o| o.0 == *side).flat_map(|o| o.1.iter().filter(|x| x.1 == 0).map(|x| x.0)).collect();
+            let ws = wire_streams(cx.tap);
+            let p = 1 - i;
+            let mut classes: Vec<&'static str> = ids
+                .iter()
+                .map(|sid| {
+                    // bytes this side's application submitted on the stream vs. bytes that reached the wire
+                    let key = cx.events.iter().find(|e| e.side == *side && matches!(&e.api, Api::SentHead { stream, .. } | Api::RecvHead { stream, .. } if stream == sid)).map(|e| e.key);
+                    let submitted: usize = cx.events.iter().filter(|e| e.side == *side && Some(e.key) == key).filter_map(|e| if let Api::SentData { len, .. } = &e.api { Some(*len) } else { None }).sum();
+                    let on_wire: usize = cx.tap.frames.iter().filter(|f| f.from == *side && f.raw.stream == *sid).filter_map(|f| if let Ok(Frame::Data { data, .. }) = &f.frame { Some(data.len()) } else { None }).sum();
+                    let w = ws.get(sid);
+                    let reset = w.map(|w| !w.rst[i].is_empty() || !w.rst[p].is_empty()).unwrap_or(false);
+                    let clean = w.map(|w| w.end[i].is_some() && w.end[p].is_some() && w.rst[i].is_empty() && w.rst[p].is_empty()).unwrap_or(false);
+                    let waited_for_capacity = cx.events.iter().any(|e| e.side == *side && Some(e.key) == key && matches!(&e.api, Api::CapacityErr { .. } | Api::CapacityEnd));
+                    if reset && (submitted > on_wire || waited_for_capacity) {
+                        "reset-while-waiting-for-send-capacity"
+                    } else if clean {
+                        "finished-cleanly"
+                    } else if reset {
+                        "reset"
+                    } else {
+                        "other"
+                    }
+                })
+                .collect();
+            classes.sort();
+            classes.dedup();
+            let class = if classes.is_empty() { "unidentified".to_string() } else { classes.join("+") };
+            out.fail("C19", "idle/orphan-records", format!("C19/stream-records-without-id/{}", class), format!("{}: {} stream records but {} ids at quiescence with every handle dropped (unreachable records: streams {:?}, history: {})", side.name(), st.store_slab_len, st.store_ids_len, ids, class));
         }
         if st.store_slab_len > st.num_local_reset_streams {
             out.fail(
